@@ -124,6 +124,22 @@ func accT3Timeouts(a *Association) uint64 { return a.stats.getNumT3Timeouts() }
 
 func accInFastRecovery(a *Association) bool { return a.inFastRecovery }
 
+func accPacketsReceived(a *Association) uint64 { return a.stats.getNumPacketsReceived() }
+
+// accMissedThrice lists the outstanding TSNs that have collected three miss indications (the SACK-based
+// loss signal of RFC 9260 7.2.4) and are neither acknowledged nor abandoned.
+func accMissedThrice(a *Association) []uint32 {
+	var out []uint32
+	q := a.inflightQueue.chunks
+	for i := 0; i < q.Len(); i++ {
+		c := q.At(i)
+		if c.missIndicator >= 3 && !c.acked && !c.abandoned() {
+			out = append(out, c.tsn)
+		}
+	}
+	return out
+}
+
 func accHeldDescription(a *Association) string {
 	out := ""
 	for _, s := range accStreams(a) {
